@@ -88,7 +88,8 @@ func round(c *core.Ctx, seed int64, dur time.Duration, nAPI int) (problems []str
 		}()
 		f()
 	}
-	s, _ := sess.New(nil)
+	s, conn := sess.New(nil)
+	conn.FailEvery = 5 + int(seed%4) // write faults: every 5th..8th frame is not sent (a failed write must not leave a lock behind)
 	ah, err := arp.New(s)
 	if err != nil {
 		return []string{"arp.New: " + err.Error()}, st
